@@ -27,6 +27,11 @@ impl Gen {
     fn new(fl: Flavour, min_temp: u32, start: u32) -> Gen {
         Gen { s: Sim::new(fl, min_temp, start), next: 0, former_owner: vec![], former_approved: vec![], operators: vec![], marks: vec![], watched: vec![] }
     }
+    fn new_long(fl: Flavour, min_temp: u32, start: u32) -> Gen {
+        let mut g = Gen::new(fl, min_temp, start);
+        g.s = Sim::with_ttl(fl, min_temp, start, MAX_TTL_LONG);
+        g
+    }
     fn q(&self) -> Vec<(u32, u32)> {
         let mut r = vec![(0, self.next + 1)];
         for &w in &self.watched {
@@ -372,6 +377,46 @@ fn directed_for(t: &mut Trace, fl: Flavour, min_temp: u32) {
     g.run(t, "transfer_from", &[1, 0, 3], 1, 0, 0, &[1]);
 }
 
+/// long horizon (max_entry_ttl about a year): approvals and operators granted for 40 / 120 days
+/// stay usable over idle gaps of 1 and 31 days and are dead after 100 more days; ownership is
+/// untouched by the gaps; ids minted afterwards are new
+fn directed_long(t: &mut Trace, fl: Flavour, min_temp: u32) {
+    let day = LEDGERS_PER_DAY;
+    let mut g = Gen::new_long(fl, min_temp, 100);
+    t.seq(&g.s.label("directed long idle approvals 1d 31d 100d"));
+    if fl == Flavour::Cons {
+        g.run(t, "batch_mint", &[0], 0, 6, 0, &[]);
+    } else {
+        for _ in 0..6 {
+            g.run(t, "mint", &[0], 0, 0, 0, &[]);
+        }
+    }
+    g.run(t, "approve", &[0, 1], 2, 0, 100 + 40 * day, &[0]);
+    g.run(t, "approve", &[0, 5], 3, 0, 110, &[0]);
+    g.run(t, "approve", &[0, 4], 4, 0, 100 + 32 * day, &[0]); // ends exactly at the second observation
+    g.run(t, "approve_for_all", &[0, 2], 0, 0, 100 + 120 * day, &[0]);
+    g.run(t, "burn", &[0], 5, 0, 0, &[0]);
+    g.advance(t, day); // day 1
+    g.run(t, "transfer_from", &[5, 0, 3], 3, 0, 0, &[5]); // the short approval is long gone
+    g.advance(t, 31 * day); // day 32
+    g.run(t, "transfer_from", &[4, 0, 3], 4, 0, 0, &[4]); // live_until == now: still live
+    g.run(t, "transfer_from", &[1, 0, 3], 2, 0, 0, &[1]); // 40-day approval still live
+    g.run(t, "transfer_from", &[1, 3, 4], 2, 0, 0, &[1]); // …and consumed
+    g.run(t, "transfer_from", &[2, 0, 3], 0, 0, 0, &[2]); // 120-day operator live
+    g.advance(t, 100 * day); // day 132
+    g.run(t, "transfer_from", &[2, 0, 3], 1, 0, 0, &[2]); // operator expired
+    g.run(t, "approve", &[2, 5], 1, 0, g.s.now + 10, &[2]);
+    g.run(t, "transfer", &[0, 3], 1, 0, 0, &[0]); // the owner still owns it
+    g.run(t, "transfer", &[0, 3], 5, 0, 0, &[0]); // the burned token stays burned
+    if fl == Flavour::Cons {
+        g.run(t, "batch_mint", &[4], 0, 2, 0, &[]);
+    } else {
+        g.run(t, "mint", &[4], 0, 0, 0, &[]);
+    }
+    g.run(t, "approve", &[0, 1], 3, 0, g.s.now + MAX_TTL_LONG - 1, &[0]);
+    g.run(t, "approve", &[0, 1], 3, 0, g.s.now + MAX_TTL_LONG, &[0]);
+}
+
 fn main() {
     let mut t = Trace::from_args();
     let seed = seed_from_env();
@@ -384,6 +429,10 @@ fn main() {
     }
     directed_for(&mut t, Flavour::Cons, 16);
     directed_for(&mut t, Flavour::Exp, 16);
+    for fl in [Flavour::Seq, Flavour::Enum, Flavour::Cons] {
+        directed_long(&mut t, fl, 1);
+    }
+    directed_long(&mut t, Flavour::Cons, 16);
     for k in 0..nseq {
         let mut fl = match rng.below(10) {
             0 | 1 | 2 => Flavour::Seq,
